@@ -136,17 +136,25 @@ def make_directory(rng, conv, tier):
                 f = rng.choice(cand)
                 f['name'] = f['name'][:len(f['name']) - len(f['ext'])]
                 naming += '+no-extension'
+    if rng.random() < 0.15:
+        # a hidden file (leading dot): an input like any other
+        f = rng.choice(ordered)
+        f['name'] = '.' + f['name']
+        naming += '+hidden'
     placement = placement + '/' + naming
     # nested directories (recursive conversion): some files one and two levels down
     recurse = rng.random() < 0.4
     if recurse:
         subs = ['', '', 'run_1', 'run_1/pass_2', 'run_1/pass_2/x', 'b']
+        if rng.random() < 0.4:
+            # directory names that are glob / format patterns (legal names): 'RUN [2]' as a pattern matches 'RUN 2' only
+            subs = ['', '', 'RUN [2]', 'RUN [2]/pass*', 'RUN [2]/pass*/x?', 'b{0}', '%s']
         for f in ordered:
             d = rng.choice(subs)
             if d:
                 f['name'] = d + '/' + f['name']
         if not any('/' in f['name'] and f['name'].count('/') >= 2 for f in ordered):
-            ordered[-1]['name'] = 'run_1/pass_2/' + ordered[-1]['name'].split('/')[-1]
+            ordered[-1]['name'] = subs[3] + '/' + ordered[-1]['name'].split('/')[-1]
         placement += '/nested'
         # the same file name in two directories of the tree (every run directory has its 'main.dlis'): inputs are told apart by
         # their path only, and their outputs go to different output directories
